@@ -504,6 +504,93 @@ def check_lossless(ctx, F):
     ctx.rule("ir.lossless-cast", n, floor=10, note=f"integer casts in ir_printer; {len(LOSSY_OK)} tabled lossy casts with reasons")
 
 
+def check_ir_witnesses(ctx, F):
+    """the small conversion functions that carry model values into the IR, interpreted on instances that distinguish every field
+    and variant (versions with zero components, min != max, distinct line numbers, every boolean tag on its own)"""
+    from ..minieval import Mini, Panic, Unsupported
+    from .c16 import _fill
+    FB = {"wow_message_parser": F}
+    IR = "crate::ir_printer::"
+    WV = "wow_message_parser::parser::types::version::WorldVersion::"
+    LV = "wow_message_parser::parser::types::version::LoginVersion::"
+    n = 0
+
+    def run_(path, args, overrides=None):
+        m = Mini(FB, "wow_message_parser")
+        m.overrides = dict(overrides or {})
+        m.overrides.setdefault("ToString::to_string", lambda a: a[0])
+        m.overrides.setdefault("ToOwned::to_owned", lambda a: a[0])
+        import copy
+        return m.call_fn(path, [_fill(a) for a in copy.deepcopy(args)])
+
+    def fields(v):
+        return v[2] if isinstance(v, tuple) and v and v[0] == "struct" else None
+
+    def opt(x):
+        return x[1] if isinstance(x, tuple) and len(x) == 2 and x[0] == "Some" else (None if x == "None" else x)
+
+    def check(name, got, want, fn):
+        nonlocal n
+        n += 1
+        if got != want:
+            ctx.violate("ir.witness", f"{fn['path']}|{name}", f"{fn['path'].split('ir_printer::')[-1]} on {name}: the IR value is {got}, the model value is {want}: the IR misreports what the wowm text says", fn["file"], fn["line"])
+
+    try:
+        # --- world versions -------------------------------------------------------------------------------------------------
+        fn = F.fn(IR + "IrWorldVersion::from_world_version")
+        if fn is None:
+            ctx.violate("ir.witness", "anchor|from_world_version", "IrWorldVersion::from_world_version not found (anchor disappeared)")
+        else:
+            for nm, v, want in (("3", ("variant", WV + "Major", [3]), (3, None, None, None)), ("3.0", ("variant", WV + "Minor", [3, 0]), (3, 0, None, None)),
+                                ("2.0.3", ("variant", WV + "Patch", [2, 0, 3]), (2, 0, 3, None)), ("1.12.0", ("variant", WV + "Patch", [1, 12, 0]), (1, 12, 0, None)),
+                                ("1.12.1.5875", ("variant", WV + "Exact", [1, 12, 1, 5875]), (1, 12, 1, 5875)), ("3.3.5.0", ("variant", WV + "Exact", [3, 3, 5, 0]), (3, 3, 5, 0))):
+                f = fields(run_(fn["path"], [v]))
+                got = (f["major"], opt(f["minor"]), opt(f["patch"]), opt(f["build"])) if f else None
+                check(f"version {nm}", got, want, fn)
+        fn = F.fn(IR + "IrLoginVersion::from_login_versions")
+        if fn is not None:
+            r = run_(fn["path"], [[("variant", LV + "Specific", [2]), ("variant", LV + "Specific", [8])]])
+            check("login versions {2, 8}", r[2][0] if isinstance(r, tuple) and r[0] == "variant" and len(r) > 2 else r, [2, 8], fn)
+            r = run_(fn["path"], [[("variant", LV + "All")]])
+            check("login versions {*}", r[1].split("::")[-1] if isinstance(r, tuple) and r[0] == "variant" else r, "All", fn)
+        # --- sizes -----------------------------------------------------------------------------------------------------------
+        fn = F.fn(IR + "container::IrSizes::from_sizes")
+        if fn is None:
+            ctx.violate("ir.witness", "anchor|from_sizes", "IrSizes::from_sizes not found (anchor disappeared)")
+        else:
+            for lo, hi in ((3, 3), (4, 260), (0, 0), (5, 1 << 40)):
+                f = fields(run_(fn["path"], [("struct", "crate::parser::types::sizes::Sizes", {"minimum": lo, "maximum": hi})]))
+                got = (f["constant_sized"], f["minimum_size"], f["maximum_size"]) if f else None
+                check(f"sizes [{lo}, {hi}]", got, (lo == hi, min(lo, 0xFFFFFFFF), min(hi, 0xFFFFFFFF)), fn)
+        # --- file info ---------------------------------------------------------------------------------------------------------
+        fn = F.fn(IR + "IrFileInfo::from_file_info")
+        if fn is not None:
+            f = fields(run_(fn["path"], [("struct", "crate::file_info::FileInfo", {"file_name": "a.wowm", "path": None, "start_position": 11, "end_position": 29})]))
+            check("file a.wowm lines 11..29", (f["file_name"], f["start_position"], f["end_position"]) if f else None, ("a.wowm", 11, 29), fn)
+        # --- container type ----------------------------------------------------------------------------------------------------
+        fn = F.fn(IR + "container::IrContainerType::from_container_type")
+        CT = "wow_message_parser::parser::types::container::ContainerType::"
+        if fn is not None:
+            for var, op in (("CMsg", 0x1DC), ("SMsg", 0x1DD), ("Msg", 0x2CE), ("CLogin", 0x10), ("SLogin", 0x00)):
+                r = run_(fn["path"], [("variant", CT + var, [op])])
+                check(f"{var}({op:#x})", (r[1].split("::")[-1], r[2]) if isinstance(r, tuple) and r[0] == "variant" and len(r) > 2 else r, (var, [op]), fn)
+            r = run_(fn["path"], [("variant", CT + "Struct")])
+            check("Struct", r[1].split("::")[-1] if isinstance(r, tuple) and r[0] == "variant" else r, "Struct", fn)
+        # --- enumerator -----------------------------------------------------------------------------------------------------------
+        fn = F.fn(IR + "definer::IrDefinerField::from_definer_field")
+        D = "crate::parser::types::definer::"
+        if fn is not None:
+            for nm, val, orig in (("A", 10, "0x0A"), ("NEG", -1, "-1"), ("BIG", 0x40000000200, "0x40000000200")):
+                fld = ("struct", D + "DefinerField", {"name": nm, "value": ("struct", D + "DefinerValue", {"int": val, "original": orig}), "tags": None})
+                f = fields(run_(fn["path"], [fld], {"::IrTags::from_member_tags": lambda a: ("tags",), "std::string::ToString::to_string": lambda a: str(a[0]) if isinstance(a[0], int) else a[0],
+                                                    "ToString::to_string": lambda a: str(a[0]) if isinstance(a[0], int) else a[0]}))
+                v = fields(f["value"]) if f else None
+                check(f"enumerator {nm} = {orig}", (f["name"], v["value"], v["original_string"]) if f and v else None, (nm, str(val), orig), fn)
+    except (Unsupported, Panic, KeyError, TypeError) as e:
+        ctx.violate("ir.witness", "shape", f"IR conversion functions: not interpretable — review ({type(e).__name__}: {e})")
+    ctx.rule("ir.witness", n, floor=20, note="IR conversion functions interpreted on distinguishing instances (version components incl. literal zeros, min/max sizes, line numbers, container kinds with opcodes, enumerator value and spelling)")
+
+
 def run(ctx):
     F = facts("wow_message_parser")
     schema = json.load(open(SCHEMA))
@@ -522,6 +609,7 @@ def run(ctx):
         ctx.sample({"serialize_impls_not_reachable_from_IrObjects": unreached[:10]})
     check_conversions(ctx, F)
     check_lossless(ctx, F)
+    check_ir_witnesses(ctx, F)
     ctx.sample({"types": sorted(t.split("::")[-1] for t in types)[:40]})
     ctx.assume("serde_json writes what the Serialize impls hand it (strings, numbers, objects in call order); JSON Typedef semantics as in RFC 8927")
     ctx.assume("faithfulness of the emitted IR to the 2,050 objects needs the emitted file and is not decided (the committed file is an empty placeholder)")
